@@ -249,6 +249,21 @@ func (p *PX) term(v ssa.Value, fr *pxFrame, st *pxState) *Term {
 					}
 				}
 			}
+			// *(*T)(unsafe.Pointer(&cell)) with T an integer type of the cell's width:
+			// the bits of the cell read as a T — the same-width conversion
+			if cv, ok := x.X.(*ssa.Convert); ok {
+				if cv2, ok := cv.X.(*ssa.Convert); ok {
+					if al, ok := cv2.X.(*ssa.Alloc); ok {
+						if stored, ok := st.vals[p.reg(fr, al)+"*"]; ok {
+							fb, _, ok1 := intTypeInfo(p.w, stored.T)
+							tb, _, ok2 := intTypeInfo(p.w, v.Type())
+							if ok1 && ok2 && fb == tb {
+								return &Term{K: TConv, A: stored, V: v, T: v.Type(), key: "conv:" + types.TypeString(v.Type(), nil) + "(" + stored.key + ")"}
+							}
+						}
+					}
+				}
+			}
 			if ia, ok := x.X.(*ssa.IndexAddr); ok {
 				// element of a symbolic byte sequence
 				if bs := p.byteSeqOf(ia.X, fr, st); bs != nil {
@@ -345,6 +360,14 @@ func (p *PX) term(v ssa.Value, fr *pxFrame, st *pxState) *Term {
 			name = "(" + types.TypeString(c.Value.Type(), func(p *types.Package) string { return p.Name() }) + ")." + c.Method.Name()
 		} else if sc := c.StaticCallee(); sc != nil {
 			name = qualifiedFnName(sc)
+		}
+		// binary.BigEndian.UintNN over a buffer whose octets are known terms
+		if n := map[string]int{"(encoding/binary.bigEndian).Uint16": 2, "(binary.bigEndian).Uint16": 2, "(encoding/binary.bigEndian).Uint32": 4, "(binary.bigEndian).Uint32": 4, "(encoding/binary.bigEndian).Uint64": 8, "(binary.bigEndian).Uint64": 8}[name]; n > 0 && len(c.Args) == 2 {
+			if bs := p.byteSeqOf(c.Args[1], fr, st); bs != nil && len(bs.Oct) >= n {
+				if t := beTerm(bs.Oct[:n], v.Type()); t != nil {
+					return t
+				}
+			}
 		}
 		if pureMethods[name] || p.extraPure[name] {
 			var args []*Term
